@@ -98,7 +98,7 @@ func (g *gctx) list(sc scope, depth int, max int) []Stmt {
 		g.last = i == n-1
 		st := g.stmt(sc, depth)
 		out = append(out, st)
-		if !isDead && !g.fn && !g.allowDeadBranch && (st.K == "break" || st.K == "cont") {
+		if false && !isDead && !g.fn && !g.allowDeadBranch && (st.K == "break" || st.K == "cont") {
 			// goja compiles the rest of the list in "dummy mode"; branches there are a recorded finding
 			isDead = true
 			g.dead++
